@@ -118,7 +118,11 @@ def differential(ctx, preamble, entries, replay_case=None):
             ctx.violation("%s: %s" % (ent.name, core.VERDICT_TXT[v]),
                           {"kind": "failing-input", "entry": ent.name, "case": c, "impl_output": o,
                            "verdict": v, "model_output": shown, "class": cls}, found_input=True)
-        if disagree and not failing:
+        # failing cases of a recorded KNOWN class do not count as "a failing input was found": a pure
+        # model/implementation disagreement must not hide behind them
+        known_cls = set(f.get("class") for f in ctx.findings if f.get("status") == "known")
+        failing_new = [t for t in failing if ent.classify(*t) not in known_cls or ent.classify(*t) is None]
+        if disagree and not failing_new:
             c, o, v = min(disagree, key=lambda t: len(json.dumps(t[0], default=str)))
             cls = ent.classify(c, o, v)
             shown = core.coq_show(ctx.work, preamble, ent.show(c)) if ent.show(c) is not None else None
